@@ -67,8 +67,8 @@ PROPS = {
     'C06': dict(
         title='no panic / overflow / non-termination in the core',
         obligations=['allexec', 'clausere:#small$', 'clausere:#wf$', 'fn:lemma_c06_rwf_closed', 'fn:reach_bs_wf', 'fn:reach_overlap', 'mod:m_bound_spec', 'mod:m_range_spec', 'mod:m_order'],
-        assumptions=[STD, 'parser, fmt, miette, location(): not under contract', 'representation invariant rwf / wf_partial / component bounds as preconditions (established by every constructor under contract)'],
-        not_decided=['every string through Version::parse / Range::parse', 'error accessors and diagnostics', 'roughly linear time (no cost model)'],
+        assumptions=[STD, 'Range::parse, fmt, miette, location(): not under contract', 'Version::parse and the version grammar are under contract over the assumed winnow contracts: ' + WINNOW, 'representation invariant rwf / wf_partial / component bounds as preconditions (established by every constructor under contract)'],
+        not_decided=['every string through Range::parse (Version::parse: no panic for any string is an obligation, the construction of the returned error is not)', 'error accessors and diagnostics', 'roughly linear time (no cost model)'],
         witness='c06',
     ),
     'C07': dict(
